@@ -1440,3 +1440,327 @@ Proof.
   f_equal. apply (IH w t0 (now + g)); try assumption; lia.
 Qed.
 Close Scope Z_scope.
+
+(* ================= 11. continuation lines in scripts with flushes ================= *)
+
+Ltac lnorm := repeat (first [rewrite <- app_assoc | progress (cbn [app])]); try reflexivity.
+
+(* the text carried after a prefix of a script, and what the flushes of that prefix deliver *)
+Fixpoint carry_after (carry : bytes) (ops : list op) : bytes :=
+  match ops with
+  | [] => carry
+  | OpRead f :: ops' => carry_after (carry ++ f) ops'
+  | OpFlush :: ops' => carry_after (snd (split_lines carry)) ops'
+  | OpFlushAll :: ops' => carry_after [] ops'
+  end.
+
+Fixpoint cuts_out (test : bytes -> bool) (carry : bytes) (ops : list op) : list bytes :=
+  match ops with
+  | [] => []
+  | OpRead f :: ops' => cuts_out test (carry ++ f) ops'
+  | OpFlush :: ops' => frame test (unlines (fst (split_lines carry))) ++ cuts_out test (snd (split_lines carry)) ops'
+  | OpFlushAll :: ops' => frame test carry ++ cuts_out test [] ops'
+  end.
+
+Lemma spec_ops_app : forall test ops1 ops2 carry,
+  spec_ops test carry (ops1 ++ ops2) = cuts_out test carry ops1 ++ spec_ops test (carry_after carry ops1) ops2.
+Proof.
+  induction ops1 as [|[f| |] ops1 IH]; intros ops2 carry; cbn [app spec_ops cuts_out carry_after].
+  - reflexivity.
+  - apply IH.
+  - destruct (split_lines carry) as [ls t]. cbn [fst snd]. rewrite IH, app_assoc. reflexivity.
+  - rewrite IH, app_assoc. reflexivity.
+Qed.
+
+Definition ends_NL (x : bytes) : Prop := x = [] \/ exists x', x = x' ++ [NL].
+
+Lemma ends_NL_app : forall a b, ends_NL a -> ends_NL b -> ends_NL (a ++ b).
+Proof.
+  intros a b Ha [->|[b' ->]]; [rewrite app_nil_r; assumption|].
+  right. exists (a ++ b'). rewrite app_assoc. reflexivity.
+Qed.
+
+Lemma ends_NL_unlines : forall ls, ends_NL (unlines ls).
+Proof.
+  induction ls as [|l ls IH] using rev_ind; [left; reflexivity|].
+  right. exists (unlines ls ++ l). rewrite unlines_app, unlines_one, app_assoc. reflexivity.
+Qed.
+
+(* the carried text is the end of the text received, cut at a line boundary *)
+Lemma carry_after_suffix : forall ops carry, no_flush_all ops ->
+  exists pre, carry ++ ops_text ops = pre ++ carry_after carry ops /\ ends_NL pre.
+Proof.
+  induction ops as [|[f| |] ops IH]; intros carry Hn; cbn [ops_text carry_after].
+  - exists []. split; [rewrite app_nil_r; reflexivity|left; reflexivity].
+  - inversion Hn; subst. destruct (IH (carry ++ f)) as (pre & Hp & He); [assumption|].
+    exists pre. rewrite <- Hp, <- app_assoc. split; [reflexivity|assumption].
+  - inversion Hn; subst. destruct (split_lines carry) as [ls t] eqn:Es.
+    destruct (split_lines_decomp _ _ _ Es) as (Hc & _ & _). cbn [snd].
+    destruct (IH t) as (pre & Hp & He); [assumption|].
+    exists (unlines ls ++ pre). rewrite Hc, <- !app_assoc, Hp. split; [reflexivity|].
+    apply ends_NL_app; [apply ends_NL_unlines|assumption].
+  - inversion Hn; subst. congruence.
+Qed.
+
+(* a newline-terminated prefix of x ++ l (l without newline) lies within x *)
+Lemma ends_NL_prefix_split : forall pre ca x l,
+  pre ++ ca = x ++ l -> ends_NL pre -> nonl l -> exists x', x = pre ++ x' /\ ca = x' ++ l.
+Proof.
+  intros pre ca x l H He Hl. apply app_eq_app in H. destruct H as [m [[Hpre Hl']|[Hx Hca]]].
+  - (* pre = x ++ m, l = m ++ ca *)
+    destruct He as [->|[p' Hp]].
+    + symmetry in Hpre. apply app_eq_nil in Hpre. destruct Hpre as [-> ->]. exists []. split; [reflexivity|symmetry; exact Hl'].
+    + destruct m as [|c m] using rev_ind.
+      * rewrite app_nil_r in Hpre. subst x. exists []. rewrite app_nil_r. split; [reflexivity|symmetry; exact Hl'].
+      * exfalso. rewrite Hpre, app_assoc in Hp. apply app_inj_tail in Hp. destruct Hp as [_ ->].
+        apply Hl. rewrite Hl'. apply in_or_app. left. apply in_or_app. right. left. reflexivity.
+  - exists m. split; assumption.
+Qed.
+
+Lemma ends_NL_suffix : forall pre x', ends_NL (pre ++ x') -> ends_NL pre -> ends_NL x'.
+Proof.
+  intros pre x' [H|[y H]] Hp.
+  - apply app_eq_nil in H. destruct H as [_ ->]. left. reflexivity.
+  - destruct x' as [|c x'] using rev_ind; [left; reflexivity|].
+    rewrite app_assoc in H. apply app_inj_tail in H. destruct H as [_ ->]. right. exists x'. reflexivity.
+Qed.
+
+Section Attach.
+Variable test : bytes -> bool.
+Hypothesis test_head : forall a z, test a = true -> test (a ++ z) = true.
+
+Lemma frame_has_record : forall x l c y,
+  ends_NL x -> nonl l -> is_start test l = true -> nonl c -> is_start test c = false ->
+  exists more, In (l ++ NL :: c ++ more) (frame test (x ++ l ++ NL :: c ++ NL :: y)).
+Proof.
+  intros x l c y Hx Hl Hsl Hc Hsc.
+  destruct (continuation_spec_lemma test x l c y Hx Hl Hsl Hc Hsc) as (more & Hin).
+  exists more. unfold frame. apply close_last_keeps; [assumption|].
+  apply test_head. unfold is_start in Hsl. destruct l; [discriminate|assumption].
+Qed.
+
+(* once the two lines are in the carried text, the next cut (or the close) delivers them together *)
+Lemma spec_ops_delivers : forall ops x l c y,
+  ends_NL x -> nonl l -> is_start test l = true -> nonl c -> is_start test c = false ->
+  exists more, In (l ++ NL :: c ++ more) (spec_ops test (x ++ l ++ NL :: c ++ NL :: y) (ops ++ [OpFlushAll])).
+Proof.
+  induction ops as [|[f| |] ops IH]; intros x l c y Hx Hl Hsl Hc Hsc; cbn [app spec_ops].
+  - destruct (frame_has_record x l c y Hx Hl Hsl Hc Hsc) as (more & Hin).
+    exists more. apply in_or_app. left. assumption.
+  - replace ((x ++ l ++ NL :: c ++ NL :: y) ++ f) with (x ++ l ++ NL :: c ++ NL :: (y ++ f)).
+    + apply IH; assumption.
+    + lnorm.
+  - destruct (split_lines (x ++ l ++ NL :: c ++ NL :: y)) as [ls t] eqn:Es.
+    destruct (split_lines_decomp _ _ _ Es) as (Hd & _ & Ht).
+    (* the part before the cut still contains both lines *)
+    assert (Hcut : exists y', unlines ls = x ++ l ++ NL :: c ++ NL :: y').
+    { replace (x ++ l ++ NL :: c ++ NL :: y) with ((x ++ l ++ NL :: c ++ [NL]) ++ y) in Hd
+        by lnorm.
+      symmetry in Hd. destruct (ends_NL_prefix_split (x ++ l ++ NL :: c ++ [NL]) y (unlines ls) t) as (y' & Hy & _).
+      - symmetry. exact Hd.
+      - right. exists (x ++ l ++ NL :: c). lnorm.
+      - assumption.
+      - exists y'. rewrite Hy. lnorm. }
+    destruct Hcut as [y' Hy']. rewrite Hy'.
+    destruct (frame_has_record x l c y' Hx Hl Hsl Hc Hsc) as (more & Hin).
+    exists more. apply in_or_app. left. assumption.
+  - destruct (frame_has_record x l c y Hx Hl Hsl Hc Hsc) as (more & Hin).
+    exists more. apply in_or_app. left. assumption.
+Qed.
+
+Lemma continuation_flushes_spec : forall ops1 fs ops2 x l1 l2 c z,
+  no_flush_all ops1 -> ops_text ops1 = x ++ l1 -> ends_NL x ->
+  concat fs = l2 ++ NL :: c ++ NL :: z ->
+  nonl (l1 ++ l2) -> is_start test (l1 ++ l2) = true -> nonl c -> is_start test c = false ->
+  exists more, In ((l1 ++ l2) ++ NL :: c ++ more)
+                  (spec_ops test [] (ops1 ++ map OpRead fs ++ ops2 ++ [OpFlushAll])).
+Proof.
+  intros ops1 fs ops2 x l1 l2 c z Hn Ht Hx Hfs Hl Hsl Hc Hsc.
+  rewrite spec_ops_app, spec_ops_reads.
+  destruct (carry_after_suffix ops1 [] Hn) as (pre & Hp & He). cbn [app] in Hp. rewrite Ht in Hp.
+  assert (Hl1 : nonl l1) by (apply nonl_app in Hl; tauto).
+  destruct (ends_NL_prefix_split pre (carry_after [] ops1) x l1 (eq_sym Hp) He Hl1) as (x' & Hx' & Hca).
+  assert (Hx'e : ends_NL x') by (eapply ends_NL_suffix; [rewrite <- Hx'; exact Hx|exact He]).
+  rewrite Hca, Hfs.
+  replace ((x' ++ l1) ++ l2 ++ NL :: c ++ NL :: z) with (x' ++ (l1 ++ l2) ++ NL :: c ++ NL :: z)
+    by lnorm.
+  destruct (spec_ops_delivers ops2 x' (l1 ++ l2) c z Hx'e Hl Hsl Hc Hsc) as (more & Hin).
+  exists more. apply in_or_app. right. assumption.
+Qed.
+End Attach.
+
+Lemma continuation_flushes_lemma : forall test min_buf limit b ops1 fs ops2 x l1 l2 c z,
+  test [] = false -> (forall a y, test a = true -> test (a ++ y) = true) ->
+  1 <= limit -> 2 * b + 1 + limit <= Nat.max min_buf (limit * 3) ->
+  bounded_ops test b [] (ops1 ++ map OpRead fs ++ ops2 ++ [OpFlushAll]) ->
+  no_flush_all ops1 -> ops_text ops1 = x ++ l1 -> (x = [] \/ exists x', x = x' ++ [NL]) ->
+  concat fs = l2 ++ NL :: c ++ NL :: z ->
+  nonl (l1 ++ l2) -> is_start test (l1 ++ l2) = true -> nonl c -> is_start test c = false ->
+  exists st' out more,
+    run_ops test (ops1 ++ map OpRead fs ++ ops2 ++ [OpFlushAll]) (new_mlr min_buf limit) [] = Ok (st', out) /\
+    In ((l1 ++ l2) ++ NL :: c ++ more) out.
+Proof.
+  intros test min_buf limit b ops1 fs ops2 x l1 l2 c z Hnil Hhead Hlim Hcap HB Hn Ht Hx Hfs Hl Hsl Hc Hsc.
+  destruct (script_lemma test min_buf limit b _ (or_introl Hnil) Hlim Hcap HB) as (st' & Hrun).
+  destruct (continuation_flushes_spec test Hhead ops1 fs ops2 x l1 l2 c z Hn Ht Hx Hfs Hl Hsl Hc Hsc) as (more & Hin).
+  eexists st', _, more. split; [exact Hrun|exact Hin].
+Qed.
+
+(* ================= 12. flushes only shorten: a bound on the unflushed stream suffices ================= *)
+
+Section Shorten.
+Variable test : bytes -> bool.
+Variable b : nat.
+Notation small := (Forall (fun r : bytes => length r <= b)).
+
+Lemma join_app_le : forall dl x : list bytes, x <> [] -> length (join NL x) <= length (join NL (dl ++ x)).
+Proof.
+  intros dl x Hx. destruct x as [|x0 x] using rev_ind; [congruence|]. clear IHx.
+  rewrite app_assoc, !join_snoc, unlines_app, !app_length. lia.
+Qed.
+
+Lemma last_segment_app_le : forall dl x p, x <> [] -> length (last_segment x p) <= length (last_segment (dl ++ x) p).
+Proof.
+  intros dl x p Hx. unfold last_segment. destruct p.
+  - apply join_app_le. assumption.
+  - rewrite <- app_assoc. apply join_app_le. intros H. apply app_eq_nil in H. destruct H; discriminate.
+Qed.
+
+Lemma seg_state_nonempty : forall x p, x <> [] -> seg_state x p = [last_segment x p].
+Proof. intros [|x0 x] p H; [congruence|]. destruct p; reflexivity. Qed.
+
+(* the same lines with some older lines in front: every future segment is at least as long *)
+Lemma shorten_open : forall v dl x p, x <> [] ->
+  small (future_segs test (dl ++ x) p v) -> small (future_segs test x p v).
+Proof.
+  induction v as [|c v IH]; intros dl x p Hx H.
+  - unfold future_segs in *. cbn [feed app] in *.
+    rewrite seg_state_nonempty in * by (try assumption; intros E; apply app_eq_nil in E; destruct E; congruence).
+    apply Forall_cons_iff in H. destruct H as [Hl _]. constructor; [|constructor].
+    pose proof (last_segment_app_le dl x p Hx). lia.
+  - destruct (N.eq_dec c NL) as [->|Hc].
+    + rewrite future_segs_cons_NL in *. unfold close in *.
+      destruct x as [|x0 x]; [congruence|]. destruct (dl ++ x0 :: x) as [|d0 dlx] eqn:Ed.
+      { apply app_eq_nil in Ed. destruct Ed; discriminate. }
+      rewrite <- Ed in *. clear Ed d0 dlx.
+      destruct (is_start test p); cbn [fst snd app] in *.
+      * apply Forall_cons_iff in H. destruct H as [H1 H2]. constructor; [|assumption].
+        pose proof (join_app_le dl (x0 :: x) Hx). lia.
+      * change (x0 :: x ++ [p]) with ((x0 :: x) ++ [p]). apply (IH dl); [discriminate|].
+        rewrite app_assoc. assumption.
+    + rewrite future_segs_cons_other in * by assumption. apply (IH dl); assumption.
+Qed.
+
+Lemma shorten_fresh : forall v dl p, small (future_segs test dl p v) -> small (future_segs test [] p v).
+Proof.
+  induction v as [|c v IH]; intros dl p H.
+  - destruct dl as [|d dl]; [assumption|].
+    unfold future_segs in *. cbn [feed app] in *. unfold seg_state in *. destruct p as [|c p]; [constructor|].
+    apply Forall_cons_iff in H. destruct H as [Hl _]. constructor; [|constructor].
+    pose proof (join_app_le (d :: dl) [c :: p] ltac:(discriminate)) as Hle.
+    unfold last_segment in Hl |- *. change (join NL ([] ++ [c :: p])) with (join NL [c :: p]).
+    eapply Nat.le_trans; [exact Hle|exact Hl].
+  - destruct (N.eq_dec c NL) as [->|Hc].
+    + destruct dl as [|d dl]; [assumption|].
+      rewrite future_segs_cons_NL in *. unfold close in *.
+      destruct (is_start test p); cbn [fst snd app] in *.
+      * apply Forall_cons_iff in H. tauto.
+      * change (d :: dl ++ [p]) with ((d :: dl) ++ [p]) in H. apply (shorten_open v (d :: dl) [p] []); [discriminate|assumption].
+    + rewrite future_segs_cons_other in * by assumption. apply (IH dl). assumption.
+Qed.
+
+(* dropping a newline-terminated prefix of the stream keeps the bound *)
+Lemma seg_bound_drop_prefix : forall pre v, ends_NL pre -> seg_bound test b (pre ++ v) -> seg_bound test b v.
+Proof.
+  intros pre v He H. unfold seg_bound in *.
+  destruct (feed test [] [] pre) as [[o dl] p] eqn:E.
+  assert (Hp : p = []).
+  { destruct He as [->|[x' ->]]; [cbn in E; injection E as _ _ <-; reflexivity|]. eapply feed_ends_NL. exact E. }
+  subst p.
+  destruct (feed test dl [] v) as [[o2 dl2] p2] eqn:E2.
+  assert (Exy : feed test [] [] (pre ++ v) = (o ++ o2, dl2, p2)) by (rewrite feed_app, E, E2; reflexivity).
+  rewrite (segments_feed test _ _ _ _ Exy), <- app_assoc in H. apply Forall_app in H. destruct H as [_ H].
+  assert (H1 : small (future_segs test dl [] v)) by (unfold future_segs; rewrite E2; exact H).
+  apply shorten_fresh in H1. unfold future_segs in H1.
+  destruct (feed test [] [] v) as [[o3 dl3] p3] eqn:E3. rewrite (segments_feed test _ _ _ _ E3). exact H1.
+Qed.
+
+Lemma bounded_ops_of_stream : forall ops pre carry,
+  no_flush_all ops -> ends_NL pre -> seg_bound test b (pre ++ carry ++ ops_text ops) ->
+  bounded_ops test b carry (ops ++ [OpFlushAll]).
+Proof.
+  induction ops as [|[f| |] ops IH]; intros pre carry Hn He H; cbn [app bounded_ops ops_text] in *.
+  - rewrite app_nil_r in H. split.
+    + exists []. rewrite app_nil_r. eapply seg_bound_drop_prefix; eassumption.
+    + exists []. apply seg_bound_nil.
+  - inversion Hn; subst. apply (IH pre); [assumption|assumption|]. rewrite <- app_assoc. assumption.
+  - inversion Hn; subst. split.
+    + exists (ops_text ops). eapply seg_bound_drop_prefix; eassumption.
+    + destruct (split_lines carry) as [ls t] eqn:Es. destruct (split_lines_decomp _ _ _ Es) as (Hc & _ & _).
+      cbn [snd]. apply (IH (pre ++ unlines ls)); [assumption|apply ends_NL_app; [assumption|apply ends_NL_unlines]|].
+      rewrite Hc in H. rewrite <- !app_assoc in *. assumption.
+  - inversion Hn; subst. congruence.
+Qed.
+End Shorten.
+
+(* theorem 2 with the simple side condition: the segments of the stream as a whole are bounded *)
+Lemma script_stream_lemma : forall test min_buf limit b ops,
+  test [] = false -> 1 <= limit -> 2 * b + 1 + limit <= Nat.max min_buf (limit * 3) ->
+  no_flush_all ops -> seg_bound test b (ops_text ops) ->
+  exists st', run_ops test (ops ++ [OpFlushAll]) (new_mlr min_buf limit) [] =
+              Ok (st', spec_ops test [] (ops ++ [OpFlushAll])).
+Proof.
+  intros test min_buf limit b ops Hnil Hl Hc Hn HB.
+  apply (script_lemma test min_buf limit b); try assumption; [left; assumption|].
+  apply (bounded_ops_of_stream test b ops [] []); [assumption|left; reflexivity|exact HB].
+Qed.
+
+Lemma continuation_flushes_stream_lemma : forall test min_buf limit b ops1 fs ops2 x l1 l2 c z,
+  test [] = false -> (forall a y, test a = true -> test (a ++ y) = true) ->
+  1 <= limit -> 2 * b + 1 + limit <= Nat.max min_buf (limit * 3) ->
+  no_flush_all ops1 -> no_flush_all ops2 ->
+  seg_bound test b (ops_text (ops1 ++ map OpRead fs ++ ops2)) ->
+  ops_text ops1 = x ++ l1 -> (x = [] \/ exists x', x = x' ++ [NL]) ->
+  concat fs = l2 ++ NL :: c ++ NL :: z ->
+  nonl (l1 ++ l2) -> is_start test (l1 ++ l2) = true -> nonl c -> is_start test c = false ->
+  exists st' out more,
+    run_ops test (ops1 ++ map OpRead fs ++ ops2 ++ [OpFlushAll]) (new_mlr min_buf limit) [] = Ok (st', out) /\
+    In ((l1 ++ l2) ++ NL :: c ++ more) out.
+Proof.
+  intros test min_buf limit b ops1 fs ops2 x l1 l2 c z Hnil Hhead Hlim Hcap Hn1 Hn2 HB.
+  apply continuation_flushes_lemma with (b := b); try assumption.
+  replace (ops1 ++ map OpRead fs ++ ops2 ++ [OpFlushAll]) with ((ops1 ++ map OpRead fs ++ ops2) ++ [OpFlushAll])
+    by (rewrite <- !app_assoc; reflexivity).
+  apply (bounded_ops_of_stream test b _ [] []); [|left; reflexivity|exact HB].
+  apply Forall_app. split; [assumption|]. apply Forall_app. split; [|assumption].
+  apply Forall_forall. intros o Ho. apply in_map_iff in Ho. destruct Ho as (f & <- & _). discriminate.
+Qed.
+
+(* the hypotheses of the theorems with flushes are satisfiable: the example stream, a flush
+   after the first three bytes (inside the first header), the two lines of the first record
+   and the head of the second in three reads, a flush, the rest *)
+Lemma nonl_dec : forall l, forallb (fun c => negb (N.eqb c NL)) l = true -> nonl l.
+Proof.
+  intros l H Hin. rewrite forallb_forall in H. specialize (H NL Hin). rewrite N.eqb_refl in H. discriminate.
+Qed.
+
+Definition ex_ops1 : list op := [OpRead (firstn 3 ex_stream); OpFlush].
+Definition ex_fs : list bytes := [firstn 20 (skipn 3 ex_stream); firstn 30 (skipn 23 ex_stream); firstn 18 (skipn 53 ex_stream)].
+Definition ex_ops2 : list op := [OpFlush; OpRead (skipn 71 ex_stream)].
+
+Lemma example_flush_lemma :
+  trs [] = false /\ no_flush_all ex_ops1 /\ no_flush_all ex_ops2 /\
+  seg_bound trs 64 (ops_text (ex_ops1 ++ map OpRead ex_fs ++ ex_ops2)) /\
+  ops_text ex_ops1 = [] ++ firstn 3 ex_r1 /\
+  concat ex_fs = skipn 3 ex_r1 ++ NL :: ex_c1 ++ NL :: firstn 9 ex_r2 /\
+  nonl (firstn 3 ex_r1 ++ skipn 3 ex_r1) /\ is_start trs (firstn 3 ex_r1 ++ skipn 3 ex_r1) = true /\
+  nonl ex_c1 /\ is_start trs ex_c1 = false /\
+  exists st, run_ops trs (ex_ops1 ++ map OpRead ex_fs ++ ex_ops2 ++ [OpFlushAll]) (new_mlr 256 64) [] =
+             Ok (st, [ex_r1 ++ NL :: ex_c1; ex_r2]).
+Proof.
+  split; [reflexivity|]. split; [repeat constructor; discriminate|]. split; [repeat constructor; discriminate|].
+  split; [apply seg_bound_dec; vm_compute; reflexivity|]. split; [vm_compute; reflexivity|].
+  split; [vm_compute; reflexivity|]. split; [apply nonl_dec; vm_compute; reflexivity|].
+  split; [vm_compute; reflexivity|]. split; [apply nonl_dec; vm_compute; reflexivity|].
+  split; [vm_compute; reflexivity|]. eexists. vm_compute. reflexivity.
+Qed.
